@@ -369,6 +369,10 @@ def _holder_of(val: Any) -> Optional[tuple]:
             for key, attr in parent.namespace.items():
                 if attr is val:
                     return (parent, key)
+            # Arrays and bundles which elaboration replaced by their elements remain those of their (elaborated) Module
+            for key, attr in (getattr(parent, "_dissolved_names", None) or {}).items():
+                if attr is val:
+                    return (parent, key)
     return None
 
 
